@@ -152,6 +152,11 @@ def _byteview(a):
     return a.T.reshape(-1).view(np.uint8)          # F-contiguous
 
 
+def _no_in_place(x, op):
+    if x is IN_PLACE:
+        raise SimUnsupported('MPI.IN_PLACE in %s is not modelled' % op)
+
+
 def parse_buf(spec, writable=False, vector=False):
     """Parse `buf`, `[buf, type]`, `[buf, count, type]`, `[buf, counts, displs, type]`,
     `[buf, (counts, displs), type]`, `[buf, counts]` as mpi4py does."""
@@ -656,6 +661,7 @@ class Comm:
 
     def Alltoall(self, sendbuf, recvbuf):
         n = len(self._members)
+        _no_in_place(sendbuf, 'Alltoall')
         s = parse_buf(sendbuf)
         r = parse_buf(recvbuf, writable=True)
         if s.count % n or r.count % n:
@@ -682,8 +688,19 @@ class Comm:
 
     def Allgather(self, sendbuf, recvbuf):
         n = len(self._members)
-        s = parse_buf(sendbuf)
         r = parse_buf(recvbuf, writable=True)
+        if sendbuf is IN_PLACE:
+            if r.count % n:
+                raise ValueError('message: buffer count is not a multiple of the communicator size')
+            blk = r.nbytes() // n
+            s = Buf()
+            s.arr = None
+            s.dt = r.dt
+            s.count = r.count // n
+            s.counts = s.displs = None
+            s.bytes = r.bytes[self._rank * blk:(self._rank + 1) * blk].copy()
+        else:
+            s = parse_buf(sendbuf)
         cid = self._cid
 
         def complete(p):
@@ -694,7 +711,7 @@ class Comm:
                 raise Violation('buffer-mismatch', dict(op='Allgather', context=cid,
                                                         send_bytes=sb, recv_bytes=rb))
             for i, (si, ri) in enumerate(p):
-                if _overlap(si, ri):
+                if si.arr is not None and _overlap(si, ri):
                     raise Violation('buffer-alias', dict(op='Allgather', rank=i))
             b = sb[0]
             for j in range(n):
@@ -785,6 +802,7 @@ class Comm:
     def Gather(self, sendbuf, recvbuf, root=0):
         root = self._check_root(root)
         n = len(self._members)
+        _no_in_place(sendbuf, 'Gather')
         s = parse_buf(sendbuf)
         s.bytes = s.bytes[:s.nbytes()].copy()
         r = parse_buf(recvbuf, writable=True) if self._rank == root else None
@@ -806,6 +824,7 @@ class Comm:
     def Gatherv(self, sendbuf, recvbuf, root=0):
         root = self._check_root(root)
         n = len(self._members)
+        _no_in_place(sendbuf, 'Gatherv')
         s = parse_buf(sendbuf)
         s.bytes = s.bytes[:s.nbytes()].copy()       # a rank may return early (eager)
         r = parse_buf(recvbuf, writable=True, vector=True) if self._rank == root else None
@@ -866,6 +885,59 @@ class Comm:
                 p[i][1].bytes[:b] = data[i * b:(i + 1) * b]
             return None
         self._coll('Scatter', (root,), (s, r), complete)
+
+    def Scatterv(self, sendbuf, recvbuf, root=0):
+        root = self._check_root(root)
+        n = len(self._members)
+        s = parse_buf(sendbuf, vector=True) if self._rank == root else None
+        _no_in_place(recvbuf, 'Scatterv')
+        r = parse_buf(recvbuf, writable=True)
+        cid = self._cid
+
+        def complete(p):
+            ss = p[root][0]
+            if ss.counts is None:
+                if ss.count % n:
+                    raise Violation('buffer-mismatch', dict(op='Scatterv', why='no counts'))
+                c = ss.count // n
+                ss.counts = [c] * n
+                ss.displs = [c * i for i in range(n)]
+            e = ss.dt.size
+            data = ss.bytes.copy()
+            for i in range(n):
+                rr = p[i][1]
+                if rr.nbytes() < ss.counts[i] * e or rr.dt.name != ss.dt.name:
+                    raise Violation('buffer-mismatch', dict(op='Scatterv', context=cid, receiver=i,
+                                                            sent=(ss.dt.name, ss.counts[i]), recv=(rr.dt.name, rr.count)))
+                lo = ss.displs[i] * e
+                if lo < 0 or lo + ss.counts[i] * e > data.size:
+                    raise Violation('buffer-overrun', dict(op='Scatterv', context=cid, receiver=i))
+                rr.bytes[:ss.counts[i] * e] = data[lo:lo + ss.counts[i] * e]
+            return None
+        self._coll('Scatterv', (root,), (s, r), complete)
+
+    def scan(self, sendobj, op=SUM):
+        def complete(p):
+            out, acc = [], None
+            for i, x in enumerate(p):
+                acc = x if i == 0 else op.fobj(acc, x)
+                out.append(_pcopy(acc))
+            return out
+        return self._coll('scan', (op.name,), _pcopy(sendobj), complete)
+
+    def Scan(self, sendbuf, recvbuf, op=SUM):
+        _no_in_place(sendbuf, 'Scan')
+        s = parse_buf(sendbuf)
+        r = parse_buf(recvbuf, writable=True)
+        snap = self._typed(s).copy()
+
+        def complete(p):
+            acc = None
+            for i, x in enumerate(p):
+                acc = x[0].copy() if i == 0 else op.farr(acc, x[0])
+                x[1].bytes[:x[1].nbytes()].view(x[1].dt.npdt)[:] = acc
+            return None
+        self._coll('Scan', (op.name,), (snap, r), complete)
 
     def _typed(self, b):
         """numeric view of a parsed buffer for reductions"""
@@ -1070,7 +1142,31 @@ class _WorldProxy:
 
 
 COMM_WORLD = _WorldProxy()
-COMM_SELF = None
+
+
+class _SelfProxy:
+    """MPI.COMM_SELF: a single-member communicator of the calling rank."""
+
+    def _get(self):
+        w, r = simworld.current()
+        if w is None:
+            raise RuntimeError('MPI.COMM_SELF used outside a simulated rank')
+        c = getattr(simworld._tls, 'comm_self', None)
+        if c is None or c._world is not w:
+            c = Comm(w, -1 - r, (r,), r)
+            simworld._tls.comm_self = c
+        return c
+
+    def __getattr__(self, name):
+        if name.startswith('__'):
+            raise AttributeError(name)
+        return getattr(self._get(), name)
+
+    def __repr__(self):
+        return 'MPI.COMM_SELF(sim)'
+
+
+COMM_SELF = _SelfProxy()
 
 
 def world_comm(world, r):
